@@ -1483,3 +1483,17 @@ package process
 //@   callsite[C04] C04.fwdDropFirst process.createDroppableForwardFromClient#1: f.to_drop && arg0 == process && arg2 == message.Channel1 && message.Channel1.Channel != nil
 //@   callsite[C04] C04.fwdDropSecond process.createDroppableForwardFromClient#2: f.to_drop && arg0 == process && arg2 == message.Channel2 && message.Channel2.Channel != nil
 //@   callsite[C04] C04.fwdDropEnds (*process.Process).terminate#1: f.to_drop && arg0 == process
+
+// C04: the direction of a polarised forward is the polarity of the forwarded channel - read off its (unfolded) type
+// when the program was typechecked, else the annotation the user wrote
+//@ contract (*Name).Polarity
+//@   callsite[C04] C04.namePolType types.SessionType.Polarity#1: fromTypes
+//@   ensures[C04] C04.namePolAnnot: !fromTypes ==> result == ite(old(n.ExplicitPolarity) != nil, old(deref(n.ExplicitPolarity)), types.UNKNOWN)
+//@ contract (*ForwardForm).Polarity
+//@   callsite[C04] C04.fwdPolOf (*process.Name).Polarity#1: arg0 == addr(p, ForwardForm, from_c) && arg1 == fromTypes && arg2 == globalEnvironment
+//@ contract (*ForwardForm).Transition
+//@   callsite[C04] C04.fwdPolarity (*process.ForwardForm).Polarity#1: arg0 == f && arg1 == re.Typechecked && arg2 == re.GlobalEnvironment
+//@   callsite[C04] C04.fwdActiveNegative (*process.Process).terminateForward#1: polarity == types.NEGATIVE
+//@   callsite[C04] C04.fwdPassivePositive (*process.Process).transitionLoop#1: polarity == types.POSITIVE
+//@   callsite[C04] C04.fwdDropNegative (*process.Process).terminateForward#2: polarity == types.NEGATIVE
+//@   callsite[C04] C04.fwdDropPositive (*process.Process).terminate#1: polarity == types.POSITIVE
